@@ -409,6 +409,7 @@ def emit(cases):
 
 
 COQ_CHUNK = 260
+MAX_REPORT = 6
 SKIPPED = []
 
 ROW = re.compile(r"\((\d+), \((true|false), (true|false), (\d+)\)\)")
@@ -577,6 +578,7 @@ def run(chk):
 
     # ---- decisions
     nd = 0
+    reported = 0   # at most MAX_REPORT fresh violations are written out (the first ones, in case order)
     pending = []   # model != impl, spec holds, outside every finding class
     for (c, sub, m_ok, s_ok, cls) in bad:
         nd += 1
@@ -585,6 +587,11 @@ def run(chk):
             if cls is None and non_ascii_edge(c):
                 chk.notes.append("domain edge (non-ASCII octets in a line split by strings.Fields/ToUpper): " + describe(c, sub)[:200])
                 continue
+            fresh = cls is None or cls not in chk.findings
+            if fresh:
+                reported += 1
+                if reported > MAX_REPORT:
+                    continue
             chk.violation(what, payload_of(c, sub), cls=cls)
         elif not m_ok:
             if cls is not None:
@@ -594,7 +601,12 @@ def run(chk):
             else:
                 pending.append((c, sub))
     chk.cov["disagreements_checked"] = nd
+    if reported > MAX_REPORT:
+        chk.notes.append("%d further violating inputs not written out" % (reported - MAX_REPORT))
     chk.cov["cases_skipped"] = len(SKIPPED)
+    if len(SKIPPED) * 20 > max(1, chk.cov["by_suite"]["sasl"]):
+        chk.broken_obligation("correspondence suite sasl no longer checks: %d of %d SASL cases did not complete (service hangs?): %s"
+                              % (len(SKIPPED), chk.cov["by_suite"]["sasl"], SKIPPED[0]))
     chk.notes.extend(SKIPPED[:5])
     for c in corpus:
         hit = any(b[0] is c and not b[3] for b in bad)
